@@ -91,7 +91,12 @@ def a04_window_invariant(ctx):
     for tr_ in f.bodies:
         if tr_.startswith('<core::window::Window<f64> as std::ops::Index<u') and tr_.endswith('>>::index'):
             methods['Index::index'] = tr_          # Index<PeriodType>: u8 / u16 / u32 / u64 by feature
-    SLOT = WR.slot_fn       # the private index -> slot mapping, whatever it is called
+    SLOT = WR.slot_fn       # the private index -> slot mapping, whatever it is called and wherever it is written (method or free function)
+    if SLOT not in methods:
+        base_ = WR.roles.slot_fn_path
+        for bid_ in f.bodies:
+            if bid_.startswith(base_ + '::<f64') or bid_ == base_ + '::<f64>':
+                methods[SLOT] = bid_
     needed = ('push', 'newest', 'oldest', SLOT, 'get', 'Index::index', 'is_empty', 'len', 'iter', 'iter_rev', 'new', 'from_parts', 'empty')
     for nme in needed:
         if nme not in methods:
